@@ -188,6 +188,9 @@ fn via_machine(c: &SampleCase, obs: &mut Obs) -> Result<(), Failure> {
         (plain, None, cs(c.dist)),
         (plain, cs(one), cs(c.dist)),
         (plain, cs(c.dist), cs(one)),
+        // a copy counter that also carries a distribution (struct literal / decoder only)
+        (plain, Some(CounterSpec { op: 2, dist: Some(c.dist), copy: true }), cs(one)),
+        (plain, cs(one), Some(CounterSpec { op: 1, dist: Some(c.dist), copy: true })),
         (ActionSpec::Pad { bypass: true, replace: true, timeout: c.dist, limit: None }, None, None),
         (ActionSpec::Pad { bypass: true, replace: true, timeout: one, limit: Some(c.dist) }, None, None),
         (ActionSpec::Block { bypass: false, replace: false, timeout: c.dist, duration: one, limit: None }, None, None),
